@@ -51,4 +51,6 @@ def run(prog, rep, tier):
         apply(rep, "E9", "assertions, sub-expressions, captures and if-else leave the incoming stack as documented (engine interpreted against the reference semantics)", ([i for i in e9[0] if i[0] in ('E9:assert', 'E9:subx', 'E9:capture', 'E9:ifelse', 'E9:nested')], [f for f in e9[1] if f["key"] in ('E9:assert', 'E9:subx', 'E9:capture', 'E9:ifelse', 'E9:nested')]), 5)
     import r_front
     apply(rep, "E11", "`?( )`, `!( )`, `[ ]`, `{ } apply`, parentheses and if-then-else written in query text leave the surrounding stack as documented, around every kind of body (front end and engine interpreted against the documented meaning of the notation)", r_front.e11(prog, tier, ("E11:grouping", "E11:ifelse")), 2)
+    import r_core as _rc8
+    apply(rep, "P8", "a copy of a value is the value, position included: every clone () interpreted on an object with marker fields (stack copies made by `let`, ALT branches and closures leave the values as they are)", _rc8.p8(prog), 10)
     maybe_mutants("C04", rep, tier)
